@@ -351,6 +351,55 @@ def WellNested (evs : List Event) : Prop := run [] evs = some []
 
 instance (evs : List Event) : Decidable (WellNested evs) := by unfold WellNested; infer_instance
 
+/-! ## graph vocabulary used by the theorems -/
+
+/-- `m` is a child paint of `n` that `traverse_with_callbacks` can descend into (all lookups on the
+way succeed) -/
+inductive Edge (inst : Instance) : Node → Node → Prop
+  | glyph {g child m} : inst.resolve child = some m → Edge inst (.glyph g child) m
+  | transform {child m} : inst.resolve child = some m → Edge inst (.transform child) m
+  | compSrc {src mode bd m} : inst.resolve src = some m → Edge inst (.composite src mode bd) m
+  | compBackdrop {src mode bd m} : inst.resolve bd = some m → Edge inst (.composite src mode bd) m
+  | layer {first num i pid m} : first ≤ i → i < first + num → inst.layer i = some pid →
+      inst.resolve pid = some m → Edge inst (.colrLayers first num) m
+  | colrGlyph {g pid m} : inst.base g = .found pid → inst.resolve pid = some m →
+      Edge inst (.colrGlyph g) m
+
+/-- there is a descending path of `k` edges starting at the node -/
+inductive Path (inst : Instance) : Node → Nat → Prop
+  | here (n : Node) : Path inst n 0
+  | step {n m : Node} {k : Nat} : Edge inst n m → Path inst m k → Path inst n (k + 1)
+
+/-- a walk of `k` edges from the first node to the second -/
+inductive Walk (inst : Instance) : Node → Node → Nat → Prop
+  | here (n : Node) : Walk inst n n 0
+  | step {n m b : Node} {k : Nat} : Edge inst n m → Walk inst m b k → Walk inst n b (k + 1)
+
+/-- `1 + k + k² + … + k^(f-1)`: nodes of the complete `k`-ary tree of height `f` -/
+def geom (k : Nat) : Nat → Nat
+  | 0 => 0
+  | f + 1 => 1 + k * geom k f
+
+/-- every `PaintColrLayers` the instance can resolve has at most `k` layers (`num_layers` is a `u8`,
+so 255 always works) -/
+def LayersBounded (inst : Instance) (k : Nat) : Prop :=
+  ∀ id first num, inst.resolve id = some (.colrLayers first num) → num ≤ k
+
+/-- a chain of `d` nested `PaintGlyph` tables ending in a `PaintSolid`: paint `i < d` is
+`PaintGlyph(glyph 0, child i+1)`, paint `d` is the solid; colour glyph 0 has root paint 0.
+As a font this is a 250-byte tree-shaped COLR table with no sharing and no cycle. -/
+def glyphChain (d : Nat) : Instance where
+  resolve := fun i => if i < d then some (.glyph 0 (i + 1)) else if i = d then some (.leaf true) else none
+  layer := fun _ => none
+  base := fun g => if g = 0 then .found 0 else .notFound
+  hasClip := fun _ => false
+
+/-- paint nodes visited when painting `glyphChain d` -/
+def chainVisits : Nat → Nat
+  | 0 => 1
+  | 1 => 2
+  | j + 2 => 1 + 2 * chainVisits (j + 1)
+
 /-! ## helpers for the driver and for examples -/
 
 def lookup {α : Type} (tbl : List (Nat × α)) (k : Nat) : Option α :=
